@@ -37,7 +37,7 @@ open ChibiVerif.Asm ChibiVerif.Spec.IntSpec ChibiVerif.C01 ChibiVerif.X86 ChibiV
 /-- statements of the fragment.  `{ a b c }` = `seq a (seq b (seq c skip))`; `if (c) t` = `ifte c t skip`;
     `while (c) b` = `for_ none c none b` (parse.c builds the same ND_FOR node); `for (init; c; inc) b` = `for_ (some init) c (some inc) b`
     (first and third clause optional; a declaration as first clause is not in the fragment); `do b while (c);`;
-    `switch (e) body`, `case v: s`, `default: s` (GNU case ranges are not in the fragment) -/
+    `switch (e) body`, `case v: s`, `case lo ... hi: s` (GNU), `default: s` -/
 inductive FStmt where
   | skip
   | expr (e : E)
@@ -46,7 +46,7 @@ inductive FStmt where
   | for_ (init : Option E) (c : E) (inc : Option E) (body : FStmt)
   | doWhile (body : FStmt) (c : E)
   | switch_ (e : E) (body : FStmt)
-  | case_ (v : Int) (s : FStmt)          -- `case v: s`, `v` the constant as parse.c reads it into a C `long`
+  | case_ (lo hi : Int) (s : FStmt)      -- `case lo ... hi: s` (GNU; `case v: s` = `case_ v v s`), the constants as parse.c reads them into a C `long`
   | default_ (s : FStmt)
   | brk
   | cont
@@ -85,13 +85,13 @@ def noFreeCase : FStmt → Bool
   | .ifte _ t f => noFreeCase t && noFreeCase f
   | .for_ _ _ _ b => noFreeCase b
   | .doWhile b _ => noFreeCase b
-  | .case_ _ _ => false
+  | .case_ _ _ _ => false
   | .default_ _ => false
   | _ => true
 
 /-- a statement of the list: labelled by one `case` / `default` or not at all, no label of this switch inside -/
 def isItem : FStmt → Bool
-  | .case_ _ s => noFreeCase s
+  | .case_ _ _ s => noFreeCase s
   | .default_ s => noFreeCase s
   | s => noFreeCase s
 
@@ -101,10 +101,13 @@ def isChain : FStmt → Bool
   | .seq it rest => isItem it && isChain rest
   | _ => false
 
-/-- the `case` constants of a chain, converted to the promoted controlling type `P` -/
-def chainCases (P : ITy) : FStmt → List Int
-  | .seq (.case_ v _) rest => convert P v :: chainCases P rest
-  | .seq _ rest => chainCases P rest
+/-- `case lo ... hi` selects `v`: the constants are converted to the promoted controlling type `P` (6.8.4.2p5) -/
+def caseSel (P : ITy) (lo hi v : Int) : Bool := decide (convert P lo ≤ v ∧ v ≤ convert P hi)
+
+/-- the `case` ranges of a chain, as written -/
+def chainRanges : FStmt → List (Int × Int)
+  | .seq (.case_ lo hi _) rest => (lo, hi) :: chainRanges rest
+  | .seq _ rest => chainRanges rest
   | _ => []
 
 def chainDefaults : FStmt → Nat
@@ -112,15 +115,24 @@ def chainDefaults : FStmt → Nat
   | .seq _ rest => chainDefaults rest
   | _ => 0
 
-/-- what this machine requires of a `switch` body: a chain of labelled statements; no two `case` constants have the same
-    value after conversion (6.8.4.2p3); at most one `default` -/
+/-- two ranges have no value in common, in the controlling type -/
+def rangesDisjoint (P : ITy) (a b : Int × Int) : Bool :=
+  decide (convert P a.2 < convert P b.1) || decide (convert P b.2 < convert P a.1)
+
+def pairwiseDisjoint (P : ITy) : List (Int × Int) → Bool
+  | [] => true
+  | a :: r => r.all (rangesDisjoint P a) && pairwiseDisjoint P r
+
+/-- what this machine requires of a `switch` body: a chain of labelled statements; every range non-empty in the controlling
+    type; no two `case`s with a value in common (6.8.4.2p3); at most one `default` -/
 def switchOK (P : ITy) (body : FStmt) : Bool :=
-  isChain body && decide (chainCases P body).Nodup && decide (chainDefaults body ≤ 1)
+  isChain body && (chainRanges body).all (fun r => decide (convert P r.1 ≤ convert P r.2)) &&
+    pairwiseDisjoint P (chainRanges body) && decide (chainDefaults body ≤ 1)
 
 /-- the chain from the `case` selecting `v` on (`switchOK`: there is at most one; were there several, the last) -/
 def selectCase (P : ITy) (v : Int) : FStmt → Option FStmt
-  | .seq (.case_ cv s) rest =>
-      (selectCase P v rest).orElse fun _ => if convert P cv = v then some (.seq (.case_ cv s) rest) else none
+  | .seq (.case_ lo hi s) rest =>
+      (selectCase P v rest).orElse fun _ => if caseSel P lo hi v then some (.seq (.case_ lo hi s) rest) else none
   | .seq _ rest => selectCase P v rest
   | _ => none
 
@@ -193,7 +205,7 @@ def execF (R : ITy) : Nat → FStmt → Env → FRes
             | none => .done .normal σ1
         else .unsupported
       | _, _ => .undef
-    | .case_ _ s => execF R n s σ
+    | .case_ _ _ s => execF R n s σ
     | .default_ s => execF R n s σ
     | .brk => .done .brk σ
     | .cont => .done .cont σ
@@ -294,19 +306,19 @@ def nuniq : FStmt → Nat
   | .for_ _ _ _ b => 2 + nuniq b
   | .doWhile b _ => 2 + nuniq b
   | .switch_ _ b => 1 + nuniq b
-  | .case_ _ s => 1 + nuniq s
+  | .case_ _ _ s => 1 + nuniq s
   | .default_ s => 1 + nuniq s
   | _ => 0
 
 /-- the `case` (`some v`) and `default` (`none`) labels of the innermost enclosing `switch` inside a statement that is parsed
     when `new_unique_name()` stands at `u`, in source order, with the number of their label `.L..N`
     (parse.c `current_switch->case_next`, `default_case`; a nested `switch` owns its own labels) -/
-def collect : Nat → FStmt → List (Option Int × Nat)
+def collect : Nat → FStmt → List (Option (Int × Int) × Nat)
   | u, .seq a b => collect u a ++ collect (u + nuniq a) b
   | u, .ifte _ t f => collect u t ++ collect (u + nuniq t) f
   | u, .for_ _ _ _ b => collect (u + 2) b
   | u, .doWhile b _ => collect (u + 2) b
-  | u, .case_ v s => (some v, u) :: collect (u + 1) s
+  | u, .case_ lo hi s => (some (lo, hi), u) :: collect (u + 1) s
   | u, .default_ s => (none, u) :: collect (u + 1) s
   | _, _ => []
 
@@ -315,35 +327,50 @@ def fits32 (v : Int) : Bool := decide (-2147483648 ≤ v ∧ v ≤ 2147483647)
 /-- `(int)begin` -/
 def toI32 (v : Int) : Int := Int.bmod v 4294967296
 
-/-- one rung of the compare ladder of ND_SWITCH for `case cv:` with label `.L..l`, controlling expression of type `t`:
-    `cmp $cv, %eax|%rax; je .L..l`; a 64-bit constant that is not a sign-extended imm32 goes through `%rdi` -/
-def caseTest (t : ITy) (cv : Int) (l : Nat) : List FI :=
-  (if t.size = 8 then
-    (if fits32 cv then [FI.ins ⟨"cmp", [.i cv, .r "%rax"]⟩]
-     else [FI.ins ⟨"mov", [.i cv, .r "%rdi"]⟩, FI.ins ⟨"cmp", [.r "%rdi", .r "%rax"]⟩])
-   else [FI.ins ⟨"cmp", [.i (toI32 cv), .r "%eax"]⟩]) ++ [FI.jcc .e (.s (.uniq l))]
+/-- the wrapped C `long` of a difference computed in `long` -/
+def toI64 (v : Int) : Int := Int.bmod v 18446744073709551616
+
+/-- one rung of the compare ladder of ND_SWITCH for `case lo ... hi:` with label `.L..l`, controlling expression of type `t`.
+    `lo = hi`: `cmp $lo, %eax|%rax; je .L..l`, a 64-bit constant that is not a sign-extended imm32 through `%rdi`.
+    A range: `mov %eax|%rax, %edi|%rdi; sub $lo, ·; cmp $(hi - lo), ·; jbe .L..l` (unsigned comparison of the distance), 64-bit
+    constants that do not fit through `%rdx`. -/
+def caseTest (t : ITy) (lo hi : Int) (l : Nat) : List FI :=
+  if lo = hi then
+    (if t.size = 8 then
+      (if fits32 lo then [FI.ins ⟨"cmp", [.i lo, .r "%rax"]⟩]
+       else [FI.ins ⟨"mov", [.i lo, .r "%rdi"]⟩, FI.ins ⟨"cmp", [.r "%rdi", .r "%rax"]⟩])
+     else [FI.ins ⟨"cmp", [.i (toI32 lo), .r "%eax"]⟩]) ++ [FI.jcc .e (.s (.uniq l))]
+  else
+    (if t.size = 8 then
+      FI.ins ⟨"mov", [.r "%rax", .r "%rdi"]⟩ ::
+        ((if fits32 lo then [FI.ins ⟨"sub", [.i lo, .r "%rdi"]⟩]
+          else [FI.ins ⟨"mov", [.i lo, .r "%rdx"]⟩, FI.ins ⟨"sub", [.r "%rdx", .r "%rdi"]⟩]) ++
+         (if fits32 (toI64 (hi - lo)) then [FI.ins ⟨"cmp", [.i (toI64 (hi - lo)), .r "%rdi"]⟩]
+          else [FI.ins ⟨"mov", [.i (toI64 (hi - lo)), .r "%rdx"]⟩, FI.ins ⟨"cmp", [.r "%rdx", .r "%rdi"]⟩]))
+     else [FI.ins ⟨"mov", [.r "%eax", .r "%edi"]⟩, FI.ins ⟨"sub", [.i (toI32 lo), .r "%edi"]⟩,
+           FI.ins ⟨"cmp", [.i (toI32 (hi - lo)), .r "%edi"]⟩]) ++ [FI.jcc .be (.s (.uniq l))]
 
 /-- the rungs in `case_next` order (the most recently parsed `case` first) -/
-def rungs (t : ITy) : List (Option Int × Nat) → List FI
+def rungs (t : ITy) : List (Option (Int × Int) × Nat) → List FI
   | [] => []
-  | (some cv, l) :: r => rungs t r ++ caseTest t cv l
+  | (some (lo, hi), l) :: r => rungs t r ++ caseTest t lo hi l
   | (none, _) :: r => rungs t r
 
 /-- the label the ladder jumps to for the value `v` of the controlling expression (promoted type `P`): the rungs are tried in
     `case_next` order, i.e. the last `case` in source order whose constant converts to `v` -/
-def pickCase (P : ITy) (v : Int) : List (Option Int × Nat) → Option Nat
+def pickCase (P : ITy) (v : Int) : List (Option (Int × Int) × Nat) → Option Nat
   | [] => none
-  | (some cv, l) :: r => (pickCase P v r).orElse fun _ => if convert P cv = v then some l else none
+  | (some (lo, hi), l) :: r => (pickCase P v r).orElse fun _ => if caseSel P lo hi v then some l else none
   | (none, _) :: r => pickCase P v r
 
 /-- `current_switch->default_case`: the `default` parsed last -/
-def lastDefault : List (Option Int × Nat) → Option Nat
+def lastDefault : List (Option (Int × Int) × Nat) → Option Nat
   | [] => none
   | (none, l) :: r => (lastDefault r).orElse fun _ => some l
   | (some _, _) :: r => lastDefault r
 
 /-- the compare ladder: rungs, `jmp default` if there is one, `jmp brk` -/
-def ladder (t : ITy) (ents : List (Option Int × Nat)) (brk : Nat) : List FI :=
+def ladder (t : ITy) (ents : List (Option (Int × Int) × Nat)) (brk : Nat) : List FI :=
   rungs t ents ++ ((match lastDefault ents with
     | some d => [FI.jmp (.s (.uniq d))]
     | none => []) ++ [FI.jmp (.s (.uniq brk))])
@@ -369,7 +396,7 @@ def nlblF : FStmt → Nat
   | .for_ init c inc b => 1 + (nlblO init + (nlbl c + (nlblF b + nlblO inc)))
   | .doWhile b c => 1 + (nlblF b + nlbl c)
   | .switch_ e b => nlbl e + nlblF b
-  | .case_ _ s => nlblF s
+  | .case_ _ _ s => nlblF s
   | .default_ s => nlblF s
 
 /-- `compileF tys off toff R ctx k c u s = some (code, k', c', u')`.  `ctx`: parse.c's `brk_label`, `cont_label`,
@@ -426,7 +453,7 @@ def compileF (tys : List ITy) (off toff : Nat → Int) (R : ITy) :
         (compileF tys off toff R ⟨some u, ctx.cont, true⟩ k1 c1 (u + 1) body).map fun (cb, k2, c2, u2) =>
           (embs ce ++ (ladder te (collect (u + 1) body) u ++ (cb ++ [FI.lbl (.s (.uniq u))])), k2, c2, u2)
       | none => none
-  | ctx, k, c, u, .case_ _ s =>
+  | ctx, k, c, u, .case_ _ _ s =>
       -- ND_CASE: `label: stmt`
       if ctx.sw then (compileF tys off toff R ctx k c (u + 1) s).map fun (cs, k1, c1, u1) => (FI.lbl (.s (.uniq u)) :: cs, k1, c1, u1)
       else none
@@ -463,7 +490,7 @@ def noConflictF : FStmt → Bool
   | .for_ init c inc b => noConflictO init && (noConflict c && (noConflictO inc && noConflictF b))
   | .doWhile b c => noConflictF b && noConflict c
   | .switch_ e b => noConflict e && noConflictF b
-  | .case_ _ s => noConflictF s
+  | .case_ _ _ s => noConflictF s
   | .default_ s => noConflictF s
 
 /-- stack slots the function needs below `%rsp`: the deepest push nesting of any of its expressions -/
@@ -475,7 +502,7 @@ def depthF : FStmt → Nat
   | .for_ init c inc b => max (depthO init) (max (depthJ c) (max (depthO inc) (depthF b)))
   | .doWhile b c => max (depthF b) (depthJ c)
   | .switch_ e b => max (depthJ e) (depthF b)
-  | .case_ _ s => depthF s
+  | .case_ _ _ s => depthF s
   | .default_ s => depthF s
 
 end ChibiVerif.C03Fun
